@@ -168,11 +168,13 @@ PROPS['C07'] = dict(
           [dict(name='symm_l1_iom%d' % i, harness='h_symm', defs=['LAYOUT=1', 'ANALYSIS=2', 'IOMSET=%d' % i], split={'zmask': R(32)},
                 witnesses=['done', 'symmetry_accepted'] if i != 3 else ['done', 'no_symmetry_accepted'], max_loop=20000,
                 validate=[{'zmask': 24}]) for i in (0, 1, 3)] +
+          [dict(name='symm_l1_iom%d' % i, harness='h_symm', defs=['LAYOUT=1', 'ANALYSIS=2', 'IOMSET=%d' % i], split={'zmask': R(32)},
+                witnesses=['done'], max_loop=20000) for i in (6, 7)] +
           [dict(name='symm_l5_default', harness='h_symm', defs=['LAYOUT=5', 'ANALYSIS=0'], split={'zmask': R(32)}, tiers=[T],
                 witnesses=['done'], max_loop=20000)] +
           [dict(name='symm_l%d_iom%d' % (l, i), harness='h_symm', defs=['LAYOUT=%d' % l, 'ANALYSIS=2', 'IOMSET=%d' % i],
                 split={'zmask': R(32)}, tiers=[T], witnesses=['done'], max_loop=20000)
-           for l in (1, 2, 5) for i in (0, 1, 2, 3, 4, 5) if not (l == 1 and i in (0, 1, 3))],
+           for l in (1, 2, 5) for i in (0, 1, 2, 3, 4, 5, 6, 7) if not (l == 1 and i in (0, 1, 3, 6, 7))],
 )
 
 _EIG = {'SelfAdjointEigenSolver.*7computeI': 'stub_eig_compute'}
@@ -413,6 +415,12 @@ PROPS['C17'] = dict(
            dict(name='gfpart_mem_3x2', harness='h_gfpart', defs=['OUTER=3', 'INNER=2', 'REGIME=2'], split={'C': R(64)}, tiers=[T], witnesses=['computed']),
            dict(name='gfpart_mem_2x3', harness='h_gfpart', defs=['OUTER=2', 'INNER=3', 'REGIME=2'], split={'C': R(64)}, tiers=[T], witnesses=['computed']),
            dict(name='suscpart_mem_2x2', harness='h_suscpart', defs=['OUTER=2', 'INNER=2', 'REGIME=2'], split={'A': R(16), 'B': R(16)}, witnesses=['computed']),
+           # non-square block pairs: an index of one block used on the other block's data leaves the smaller object
+           dict(name='suscpart_mem_2x1', harness='h_suscpart', defs=['OUTER=2', 'INNER=1', 'REGIME=2'], split={'A': R(4), 'B': R(4)}, witnesses=['computed']),
+           dict(name='suscpart_mem_1x2', harness='h_suscpart', defs=['OUTER=1', 'INNER=2', 'REGIME=2'], split={'A': R(4), 'B': R(4)}, witnesses=['computed']),
+           dict(name='suscpart_mem_3x2', harness='h_suscpart', defs=['OUTER=3', 'INNER=2', 'REGIME=2'], split={'A': R(64)}, tiers=[T], witnesses=['computed']),
+           dict(name='gfpart_mem_2x1', harness='h_gfpart', defs=['OUTER=2', 'INNER=1', 'REGIME=2'], split={'C': R(4), 'CX': R(4)}, witnesses=['computed']),
+           dict(name='gfpart_mem_1x2', harness='h_gfpart', defs=['OUTER=1', 'INNER=2', 'REGIME=2'], split={'C': R(4), 'CX': R(4)}, witnesses=['computed']),
            dict(name='2pgfpart_mem_2211', harness='h_2pgfpart', defs=['DIM1=2', 'DIM2=2', 'MEMONLY=1'], concrete=True,
                 split={'O1': _P2(4), 'O2': _P2(2), 'O3': [0, 1], 'CX4': _P2(2)}, witnesses=['computed', 'done']),
            dict(name='2pgfpart_mem_1122', harness='h_2pgfpart', defs=['DIM3=2', 'DIM4=2', 'MEMONLY=1'], concrete=True,
